@@ -101,6 +101,7 @@ def explore(
         pass
 
     def body(case: Any, collect: bool) -> None:
+        state["current"] = case
         verdict = _run_case_guarded(mod, case, pid)
         if collect:
             stats.record(case, verdict, getattr(mod, "describe", None))
@@ -125,7 +126,7 @@ def explore(
         suppress_health_check=[HealthCheck.too_slow, HealthCheck.data_too_large],
         verbosity=hypothesis.Verbosity.quiet,
     )
-    strategy = mod.strategy(tier)
+    strategy = mod.strategy(tier, pid)
 
     @hypothesis.seed(seed)
     @settings(max_examples=budget, phases=(Phase.generate,), **common)
@@ -142,6 +143,10 @@ def explore(
     except BaseException as exc:  # pylint: disable=broad-except
         if state["fail"] is None:
             state["error"] = "".join(traceback.format_exception(exc))
+            try:
+                _save_replay(pid, f"error-seed{seed}.json", state.get("current"), [state["error"][-2000:]])
+            except Exception:  # pylint: disable=broad-except
+                pass
 
     unshrunk = None
     if state["fail"] is not None and shrink_s > 0:
@@ -213,13 +218,15 @@ def write_evidence(pid: str, mod: Any, tier: str, seed: int, stats: Stats, wall:
         "wall_s": round(wall, 2),
         "violations": violations,
     }
+    if os.environ.get("VERIF_NO_EVIDENCE"):
+        return
     out = ROOT / "evidence"
     out.mkdir(exist_ok=True)
     (out / f"{pid}.json").write_text(json.dumps(evidence, indent=1, sort_keys=True, default=str) + "\n")
 
 
 def _save_replay(pid: str, name: str, case: Any, violations: list[str]) -> Path:
-    out = ROOT / "replays" / pid
+    out = Path(os.environ.get("VERIF_REPLAY_DIR", str(ROOT / "replays"))) / pid
     out.mkdir(parents=True, exist_ok=True)
     path = out / name
     path.write_text(json.dumps({"property": pid, "case": case, "violations": violations},
@@ -284,7 +291,10 @@ def cmd_check(pid: str, tier: str, seed: int, budget_override: int | None) -> in
             print(f"note: known finding {f['id']} no longer reproduces on this tree")
 
     # 2. generated exploration
-    budget = budget_override or mod.BUDGET[tier]
+    budget = mod.BUDGET[tier]
+    if isinstance(budget, dict):
+        budget = budget[pid]
+    budget = budget_override or budget
     if tier == "quick":
         jobs = [(pid, tier, seed, budget, open_classes, 90.0)]
     else:
